@@ -28,8 +28,10 @@ ASSUMPTIONS = [
     'bounds are declared in the declared units of the constraint, unscaled',
     'scalers are positive (the sign convention of a violation under an orientation-reversing scaler is left '
     'open by the property and is not exercised)',
-    'find_feasible success is judged with its own definition: 1/2*sum(viol^2) <= loss_tol, with the '
-    'violation re-evaluated by the harness at the final model state',
+    'find_feasible success is judged with its own definition: 1/2*sum(viol^2) <= loss_tol in the space selected by '
+    'driver_scaling (res.cost of least_squares over the residuals of _compute_con_viol), with the violation '
+    're-evaluated by the harness in that same space at the state the model is left in (docs, "Finding Feasible '
+    'Solutions": "If it completes successfully, the model will be in a feasible state")',
     'comparison tolerance 1e-9*(1+|value|+|bound|) in declared units (round-off of one affine map)',
 ]
 MIN_JUDGED = {'quick': 400, 'thorough': 5000}
